@@ -397,9 +397,10 @@ Definition read_next (c : Cfg) (m : mode) (s : st) (t : topic) (ckpt : bool) : s
       if ts_poisoned ts then (set_ts s (t_id t) (with_reader ts r3), RErr EOther) else
       let start := if r_tail_bid r3 =? b_id w then r_tail_off r3 else 0 in
       (* "no persisted tail": initialise at the active block, keeping in-memory progress;
-         the provisional position is persisted only while nothing of the block was consumed *)
+         the provisional position is persisted only while nothing of the block was consumed
+         and only when the block holds something (an empty block is not rebuilt by a restart) *)
       let '(r4, ts1) :=
-        if ckpt && (start =? 0) then
+        if ckpt && (start =? 0) && (0 <? b_used w) then
           let '(r', p) := should_persist m r3 true in
           (r', if p then persist ts true (b_id w) start else ts)
         else (r3, ts) in
